@@ -50,6 +50,11 @@ func VerifyPE(r io.ReadSeeker, skipDigests bool) ([]PESignature, error) {
 		return nil, sigerrors.NotSignedError{Type: "PECOFF"}
 	}
 	// Read certificate table
+	if size, err := r.Seek(0, io.SeekEnd); err != nil {
+		return nil, err
+	} else if hvals.certStart+hvals.certSize > size {
+		return nil, errors.New("PE certificate table is out of bounds")
+	}
 	sigblob := make([]byte, hvals.certSize)
 	if _, err := r.Seek(hvals.certStart, 0); err != nil {
 		return nil, err
